@@ -118,9 +118,24 @@ func c19Stmt(r *Rng, c int, ro bool, scoped bool) Stmt {
 		func() string { return "put (" + quote(k()) + ", 4 / (2 - 2))" },
 	}
 	var text string
-	if ro || r.Chance(0.65) {
+	switch {
+	case !scoped && r.Chance(0.35):
+		// any statement the typed generator can produce (its key literals need not
+		// exist in this client's store; the point is the library code it runs)
+		g := newGen(r, StoreMixed)
+		switch {
+		case ro || r.Chance(0.7):
+			text = g.Select(r.Bool()).Render(false)
+		case r.Bool():
+			text = g.PutText()
+		case r.Bool():
+			text = g.RemoveText()
+		default:
+			text = g.DeleteStmt().Render(false)
+		}
+	case ro || r.Chance(0.65):
 		text = pick(r, reads)()
-	} else {
+	default:
 		text = pick(r, writes)()
 	}
 	return Stmt{Text: text, Mode: genMode(r)}
